@@ -149,32 +149,32 @@ def is_server_mode(association) -> bool:
 
 def is_1xxx_informational(answer: Any) -> bool:
     if answer.has_avp("result_code_avp"):
-        code = answer.result_code_avp.data
-        return bytes([m & n for m, n in zip(DIAMETER_ERROR_1XXX, code)]) == DIAMETER_ERROR_1XXX
+        code = convert_to_integer_from_bytes(answer.result_code_avp.data)
+        return is_result_code_family_1xxx(code)
 
 
 def is_2xxx_success(answer: Any) -> bool:
     if answer.has_avp("result_code_avp"):
-        code = answer.result_code_avp.data
-        return bytes([m & n for m, n in zip(DIAMETER_ERROR_2XXX, code)]) == DIAMETER_ERROR_2XXX
+        code = convert_to_integer_from_bytes(answer.result_code_avp.data)
+        return is_result_code_family_2xxx(code)
 
 
 def is_3xxx_failure(answer: Any) -> bool:
     if answer.has_avp("result_code_avp"):
-        code = answer.result_code_avp.data
-        return bytes([m & n for m, n in zip(DIAMETER_ERROR_3XXX, code)]) == DIAMETER_ERROR_3XXX
+        code = convert_to_integer_from_bytes(answer.result_code_avp.data)
+        return is_result_code_family_3xxx(code)
 
 
 def is_4xxx_failure(answer: Any) -> bool:
     if answer.has_avp("result_code_avp"):
-        code = answer.result_code_avp.data
-        return bytes([m & n for m, n in zip(DIAMETER_ERROR_4XXX, code)]) == DIAMETER_ERROR_4XXX
+        code = convert_to_integer_from_bytes(answer.result_code_avp.data)
+        return is_result_code_family_4xxx(code)
 
 
 def is_5xxx_failure(answer: Any) -> bool:
     if answer.has_avp("result_code_avp"):
-        code = answer.result_code_avp.data
-        return bytes([m & n for m, n in zip(DIAMETER_ERROR_5XXX, code)]) == DIAMETER_ERROR_5XXX
+        code = convert_to_integer_from_bytes(answer.result_code_avp.data)
+        return is_result_code_family_5xxx(code)
 
 
 def is_result_code_error(answer: Any) -> bool:
